@@ -201,7 +201,10 @@ def check(case):
             se, gse, ke, _, _ = [onp.asarray(o) for o in F['energies'](*geo, np.array(Un), np.array(Vn), state, dt)]
             r = (M @ An.ravel() + gse.ravel())[unk]
             sc = onp.abs(M).max() * onp.abs(An).max() + onp.abs(gse).max() + 1e-300
-            if onp.abs(r).max() > 1e-9 * sc + 1e4 * EPS * hscale:
+            # rounding floor: the stress is formed from F = I + grad u with O(1) entries, so nodal forces carry an absolute
+            # error of order eps * stiffness * mesh extent however small u is
+            floor = 1e4 * EPS * hscale + 1e3 * EPS * onp.abs(H).max() * float(onp.ptp(coords, axis=0).max())
+            if onp.abs(r).max() > 1e-9 * sc + floor:
                 fails.append(Failure('momentum-balance', 'step %d: |M A + grad SE| = %.3e relative on the unknowns' % (k, onp.abs(r).max() / sc)))
             if fails:
                 break
